@@ -38,13 +38,18 @@ def bind(nparams, last, args):
     return out
 
 
-HEADER_SPELLINGS = (', ', ',', ' ,\t', '\t,  ', ' , ')
+# a spelling is the separator of the parameter list, optionally prefixed by 'ASYNC|' (an `async function` header) and / or
+# 'DOTS|' (blanks between the last parameter and its `...`)
+HEADER_SPELLINGS = (', ', ',', ' ,\t', '\t,  ', ' , ', 'ASYNC|, ', 'DOTS|, ', 'ASYNC|DOTS| ,')
 
 
 def callee_source(nparams, last, ret, sep=', '):
     ps = [f'p{i + 1}' for i in range(nparams)]
     # globals with the parameters' names: a missing parameter is null in the call, it must never fall through to these
-    head = "p1 = 'G1'\np2 = 'G2'\np3 = 'G3'\n" + 'function ff(' + sep.join(ps) + ('...' if last and nparams else '') + '):'
+    is_async = 'ASYNC|' in sep
+    dots = ' \t...' if 'DOTS|' in sep else '...'
+    sep = sep.replace('ASYNC|', '').replace('DOTS|', '')
+    head = "p1 = 'G1'\np2 = 'G2'\np3 = 'G3'\n" + ('async function ff(' if is_async else 'function ff(') + sep.join(ps) + (dots if last and nparams else '') + '):'
     body = ["    systemLog('ff:' + jsonStringify(arrayNew(" + ', '.join(ps) + ')))']
     if ps:
         body.append("    systemLog('ty:' + " + " + ',' + ".join(f'systemType({p_})' for p_ in ps) + ')')
@@ -168,9 +173,12 @@ def convention_cases():
             for nargs in range(6):
                 for path in PATHS:
                     out.append({'nparams': nparams, 'last': last, 'nargs': nargs, 'path': path, 'sep': 0})
-                    if nparams >= 2 and path in ('direct', 'nested'):
-                        # the same with other spellings of the parameter list (blanks/tabs around the commas)
+                    if path in ('direct', 'nested'):
+                        # the same with other spellings of the header (blanks/tabs around the commas, async, blanks before ...)
                         for sep in range(1, len(HEADER_SPELLINGS)):
+                            plain_sep = 'ASYNC' not in HEADER_SPELLINGS[sep] and 'DOTS' not in HEADER_SPELLINGS[sep]
+                            if (plain_sep and nparams < 2) or ('DOTS' in HEADER_SPELLINGS[sep] and not last):
+                                continue
                             out.append({'nparams': nparams, 'last': last, 'nargs': nargs, 'path': path, 'sep': sep})
     return out
 
@@ -253,7 +261,7 @@ def events():
             continue
 
         def fn(st, fname=fname):
-            return None, {'g': st['g'], 'f': st['f'] | {fname}}
+            return None, {'g': {k: v for k, v in st['g'].items() if k != fname}, 'f': st['f'] | {fname}}
         script('def ' + fname, text, fn)
 
     def def_helpers(st):
@@ -332,6 +340,16 @@ def events():
         return None, {'g': g, 'f': st['f']}
     script("systemGlobalSet('y',3)", "systemGlobalSet('y', 3)\n", gset)
 
+    # binding a name to null is a binding: the key stays in the globals object, and a nulled name has no callee
+    def gset_null(name):
+        def fn(st):
+            g = dict(st['g'])
+            g[name] = None
+            return None, {'g': g, 'f': st['f'] - {name}}
+        return fn
+    script("systemGlobalSet('y',null)", "systemGlobalSet('y', null)\n", gset_null('y'))
+    script("systemGlobalSet('abs',null)", "systemGlobalSet('abs', null)\n", gset_null('abs'))
+
     def gget(st):
         g = dict(st['g'])
         g['rr'] = st['g'].get('x')
@@ -340,7 +358,11 @@ def events():
 
     # expression mode (built-ins available, consulted last)
     def expr_abs(st):
-        return ('value', 'script-abs' if 'abs' in st['f'] else 1), st
+        if 'abs' in st['f']:
+            return ('value', 'script-abs'), st
+        if 'abs' in st['g']:
+            return ('undefined', 'abs'), st      # bound to null by the script: the binding wins over the built-in
+        return ('value', 1), st
     ev.append(('expr abs(0-1)', 'expr', 'abs(0 - 1)', expr_abs))
 
     def expr_x(st):
